@@ -46,6 +46,16 @@ fn zip_entries(path: &str) -> Vec<(String, String)> {
     v
 }
 
+/// a list of names for the archive requests: `=` is the empty list (so that the list holding only the empty name, `-`, is
+/// not mistaken for it)
+fn join_enc0(xs: &[String]) -> String {
+    if xs.is_empty() {
+        "=".to_string()
+    } else {
+        xs.iter().map(|x| enc_name(x)).collect::<Vec<_>>().join(",")
+    }
+}
+
 fn join_enc(xs: &[String]) -> String {
     if xs.is_empty() {
         "-".to_string()
@@ -62,7 +72,9 @@ pub fn k8(dir: &str, thorough: bool, seed: u64) {
     // flat labels, labels that look like the archive's own entries, and NESTED labels (entries in a sub-directory), two of
     // them with the same last component
     let label_pool = ["s1", "a.b", "9x-y", "full", "formula-0", "formula-1", "X", "model", "formulae.txt", "d_1", "é", "a.bdd", ".x",
-        "formulae", "Apoptosis", "attr", "backup/attr", "grp/only", "x/y/z", "grp/.h"];
+        "formulae", "Apoptosis", "attr", "backup/attr", "grp/only", "x/y/z", "grp/.h",
+        // the empty label and a label ending in '/': their entries are `.bdd` and `grp/.bdd`
+        "", "grp/"];
     let formats = ["aeon", "bnet", "sbml"];
     for i in 0..n {
         let (name, aeon) = NETWORKS[rng.below(NETWORKS.len())];
@@ -121,7 +133,7 @@ pub fn k8(dir: &str, thorough: bool, seed: u64) {
         let ftxt = entries.iter().find(|(n, _)| n == "formulae.txt").map(|(_, c)| c.clone()).unwrap_or_default();
         // model: entry names and formulae.txt content
         let imp = format!("set {} ; F {}", names.iter().map(|x| enc_name(x)).collect::<Vec<_>>().join(" "), enc_name(&ftxt));
-        out.case(&format!("archnames {} {}", join_enc(&labels), join_enc(&formulae)), &imp, true);
+        out.case(&format!("archnames {} {}", join_enc0(&labels), join_enc0(&formulae)), &imp, true);
         // model: which labels come back
         let graph2 = {
             let mtxt = entries.iter().find(|(n, _)| n == "model.aeon").map(|(_, c)| c.clone()).unwrap_or_default();
@@ -141,7 +153,7 @@ pub fn k8(dir: &str, thorough: bool, seed: u64) {
         let mut got: Vec<String> = loaded.keys().cloned().collect();
         got.sort();
         out.case(
-            &format!("archload {}", join_enc(&names)),
+            &format!("archload {}", join_enc0(&names)),
             &format!("set {}", got.iter().map(|x| enc_name(x)).collect::<Vec<_>>().join(" ")),
             true,
         );
